@@ -1,6 +1,7 @@
 package main
 
 import (
+	"runtime/debug"
 	"runtime/pprof"
 	"encoding/json"
 	"flag"
@@ -71,6 +72,8 @@ func main() {
 	fixAsg := flag.String("fix-assignment", "", "replay: JSON {assignment, ch_decisions}; run one concrete path")
 	cpuprof := flag.String("cpuprofile", "", "write cpu profile")
 	flag.Parse()
+	// the live heap is dominated by the (static) SSA program: collect rarely
+	debug.SetGCPercent(1500)
 	if *cpuprof != "" {
 		f, _ := os.Create(*cpuprof)
 		pprof.StartCPUProfile(f)
